@@ -148,6 +148,8 @@ async fn main() {
         "delegated_paths" => delegs::op_delegated_paths(sc).await,
         "delegate_role" => delegate::op_delegate_role(sc).await,
         "add_role" => delegate::op_add_role(sc).await,
+        "dup_key_sources" => delegate::op_dup_key_sources(sc).await,
+        "key_types" => keyids::op_key_types(sc).await,
         _ => json!({"error": format!("unknown op {op}")}),
     };
     println!("{}", out);
